@@ -70,7 +70,8 @@ def install(plan):
     forced = plan.get("forced")  # {"groups": [g,...] | "all", "hold": k}
     wdelay = plan.get("worker_delays", {})  # "w:point" -> seconds
     pdelay = plan.get("parent_delays", {})  # "before_alive:n" / "before_get:n" -> seconds
-    fault = plan.get("fault")  # {"worker": w, "point": "before_put_k"|"before_sentinel"|"after_sentinel"|..., "kind": ...}
+    # faults: [{"worker": w, "point": "before_put_k"|"before_sentinel"|"after_sentinel"|..., "kind": ...}, ...]
+    faults = plan.get("faults") or ([plan["fault"]] if plan.get("fault") else [])
     ctxmp = mp.get_context()
     events = {}
     if forced:
@@ -165,12 +166,13 @@ def install(plan):
             if forced_for(group) and k >= self.nitems + 1 - forced["hold"]:
                 log("hold_wait", w=self.w, k=k)
                 events[group].wait(timeout=20)
-            if fault and fault["worker"] == self.w and fault["point"] == point:
-                die(fault["kind"], self.qu)
-            if fault and fault["worker"] == self.w and fault["point"] == "holding_writer_lock" and obj is None:
-                # model of "killed between send_bytes and the release of the queue's writer lock"
-                self.qu._wlock.acquire()
-                die("SIGKILL", self.qu)
+            for fault in faults:
+                if fault["worker"] == self.w and fault["point"] == point:
+                    die(fault["kind"], self.qu)
+                if fault["worker"] == self.w and fault["point"] == "holding_writer_lock" and obj is None:
+                    # model of "killed between send_bytes and the release of the queue's writer lock"
+                    self.qu._wlock.acquire()
+                    die("SIGKILL", self.qu)
             log("put_call", w=self.w, id=item_id(obj))
             self.qu.put(obj)
             log("put_ret", w=self.w, id=item_id(obj))
@@ -182,8 +184,9 @@ def install(plan):
         log("worker_start", w=w, first=seq_batch[0][3], n=len(seq_batch))
         proxy = QProxy(qu, w, len(seq_batch))
         orig_wfa(seq_batch, proxy)
-        if fault and fault["worker"] == w and fault["point"] == "after_sentinel":
-            die(fault["kind"], qu)
+        for fault in faults:
+            if fault["worker"] == w and fault["point"] == "after_sentinel":
+                die(fault["kind"], qu)
         d = wdelay.get(f"{w}:before_exit") or wdelay.get("*:before_exit")
         if d:
             time.sleep(d)
